@@ -16,6 +16,12 @@ VERIF = os.path.dirname(os.path.dirname(os.path.abspath(__file__)))
 TABLE = [
     ("fix: batch processor split keeps", "C05", "container", "part=resource", "split-schema-url", 4000,
      "splitTraces/splitLogs/splitMetrics dropped the SchemaUrl of a resource or scope they had to cut (send_batch_max_size smaller than a request)"),
+    ("fix: a Consume call that overlaps Shutdown", "C05", "exactly-once", "", "consume-overlapping-shutdown", 30000,
+     "a Consume call invoked before Shutdown but enqueuing after the shard had drained its queue: with early_return it returned nil and its items were never exported"),
+    ("fix: a Consume call that overlaps Shutdown", "C11", "shutdown-drains", "", "consume-overlapping-shutdown", 30000,
+     "a Consume call overlapping Shutdown left accepted items unexported when Shutdown returned (and, for a new metadata combination, goroutines started after it)"),
+    ("fix: the batch size is computed before", "C11", "data-race", "", "size-read-after-handover", 20000,
+     "the export goroutine marshalled the request to compute its size after the next consumer had been called with it: a data race with a downstream that keeps working on the data it owns"),
     ("fix: allSameContext compares", "C18", "own-context", "", "allsamecontext-own-context", 4000,
      "allSameContext never compared the last contributor: a two-context batch was exported under a caller's context instead of the processor's own"),
     ("fix: allSameContext compares", "C18", "no-collateral", "", "allsamecontext-no-collateral", 4000,
@@ -38,6 +44,8 @@ TABLE = [
      "reset threshold >= 1 with a record whose values alone exceed the index capacity: endless reset, producer panicked with 'Too many consecutive schema updates'"),
     ("fix: consumer propagates related-data errors", "C07", "no-silent-loss", "", "related-data-error-dropped", 120,
      "TracesFrom / LogsFrom ignored the error of RelatedDataFrom and returned success with no telemetry although a main record was present"),
+    ("fix: span events and links require their parent_id", "C07", "no-silent-loss", "", "bare-spans-relabelled", 300,
+     "the SPANS record of spans without attributes, events or links, relabelled SPAN_EVENTS or SPAN_LINKS, passed for an events/links record: success with no telemetry"),
     ("fix: the main record returned by RelatedDataFrom", "C07", "no-panic", "", "main-record-released-early", 200,
      "RelatedDataFrom released the main record it returns; a main payload delivered twice (second time under a related label) made the consumer index a freed record and panic"),
     ("fix: the consumer drops its IPC readers", "C14", "no-panic", "", "readers-kept-after-failed-batch", 400,
